@@ -43,6 +43,7 @@ class Knobs:
     nonzero_lo: float = 0.2
     symbolic: bool = True
     ncallees: int = 1
+    p_boolnest: float = 0.12  # probability of a two-way / of a nested three-way condition
 
 
 class Ext:
@@ -306,9 +307,10 @@ class _Gen:
             return "1 < 2"
         c = r.choice(opts)
         roll = r.random()
-        if roll < 0.12 and len(opts) > 1:
+        pb = self.kn.p_boolnest
+        if roll < pb and len(opts) > 1:
             c = f"{c} {r.choice(['and', 'or'])} {r.choice(opts)}"
-        elif roll < 0.24 and len(opts) > 1:
+        elif roll < 2 * pb and len(opts) > 1:
             # nested and/or with explicit grouping, and flat chains of three
             a, b, d = r.choice(opts), r.choice(opts), r.choice(opts)
             c = r.choice(
@@ -319,6 +321,9 @@ class _Gen:
                     f"{a} or ({b} and {d})",
                     f"{a} and {b} and {d}",
                     f"{a} or {b} or {d}",
+                    f"({a} and {b}) and {d}",
+                    f"({a} or {b}) or {d}",
+                    f"{a} and ({b} and {d})",
                 ]
             )
         return c
